@@ -98,5 +98,26 @@ _MORE = {
  "C03": " Struct types embedding pointers to themselves / each other; defined byte and rune slice types.",
  "C14": " Layouts also break lines after '.' and '!.'.",
 }
+_R78 = {
+ "C01": " Token accounting: the tree of an accepted text stands for exactly as many tokens as the text has.",
+ "C03": " Misuse templates are also evaluated inside larger formulas (non-last elements/arguments, operands, branches); every pair of 50 value kinds under 43 operator and call shapes.",
+ "C04": " Data numbers also sit in nested maps, typed maps and struct fields; operands also enter as text through toFloat; sampled substitution check (expression vs the literal spelling of its value in 43 contexts).",
+ "C05": " Numbers wider than 34 digits, numbers out of coercions/builtins/host functions, float32 values against their float64 widening.",
+ "C06": " Zero times among the operands; impure calls standing as condition and branch are evaluated as often as written.",
+ "C07": " Spread operands are evaluated once (model); names with $ not in first place are not locals; host functions that modify their slice/map parameters must not reach caller data or locals.",
+ "C08": " Clock independence under a virtual wall clock (three other readings per formula); auxiliary store of fresh runners; rejected texts and zone names in every letter case in the cross-process order list.",
+ "C09": " Host functions look their runner up through the context; 64 evaluations 6000 levels deep in flight together; a storm on one shared tree of compiling/formatting builtins with per-goroutine arguments; trees whose errors name the callee.",
+ "C10": " Computed callees under the sufficiency check; 2-300 distinct names then repeats; double-underscore names.",
+ "C11": " returned-number sweep over machine boundaries; a returned error aborts (nothing further called); context-lookalike first parameters.",
+ "C12": " What may follow a literal (every blank of the ES sets, every identifier character of the basic plane); the literal written directly as an argument of integer/float/string/interface parameters.",
+ "C13": " Every code point of the basic plane through its escape; a literal in place vs through a local under 39 builtins/operators; round trips with data whose names occur in the text.",
+ "C14": " Scanner entry points: re-use through SetText, resume with SetTextPos, LookHead/TryScan restore.",
+ "C15": " Texts behind a byte order mark.",
+ "C16": " Member calls named like builtins read the data; struct fields by Go name whatever their tags; keys spelled like reserved words.",
+ "C17": " mid with an inverted range is an error or empty.",
+ "C18": " toFloat of 16-34 digit texts, max/min over wide neighbours and far exponents; sampled substitution check.",
+ "C19": " now/toDay at ~60 000 chosen instants under a virtual wall clock; records with builtin-named columns; year 0; time.Local switched at run time; zone names in other letter cases and abbreviations.",
+ "C20": " The data map bound to a local of itself (reads through it follow later changes); host functions that modify their parameters.",
+}
 for _i in CLAIMED:
-    CLAIMED[_i]["text"] += _MORE.get(_i, "") + _HOST
+    CLAIMED[_i]["text"] += _MORE.get(_i, "") + _R78.get(_i, "") + _HOST
